@@ -77,14 +77,14 @@ _Q_AUTO = [
 _T_AUTO = [
     ['Toric3DCode', [2, 2, 2], 3, 12],
     ['Planar3DCode', [2, 2, 2], 3, 1], ['RotatedPlanar3DCode', [2, 2, 2], 3, 12],
-    ['RotatedPlanar3DCode', [3, 3, 3], 3, 96], ['RotatedPlanar3DCode', [4, 3, 2], 3, 96],
+    ['RotatedPlanar3DCode', [3, 3, 3], 3, 96], ['RotatedPlanar3DCode', [4, 3, 2], 2, 48],
     ['Toric3DCode', [3, 3, 3], 3, 96], ['Toric3DCode', [2, 3, 4], 3, 64],
     ['Planar3DCode', [2, 3, 4], 2, 8], ['Planar3DCode', [3, 3, 3], 3, 256],
     ['Toric3DCode', [4, 4, 4], 2, 64], ['Planar3DCode', [4, 4, 4], 2, 256],
     ['RotatedPlanar3DCode', [4, 4, 4], 2, 64],
 ]
 BOUNDS = {
-    'quick': {'geometry_max_n': 400, 'geometry_l_max': 6, 'automaton': [a[:3] for a in _Q_AUTO],
+    'quick': {'geometry_max_n': 200, 'geometry_l_max': 6, 'automaton': [a[:3] for a in _Q_AUTO],
               'tie_break_deviations': 2, 'complete_tree_leaves': 729},
     'thorough': {'geometry_max_n': 800, 'geometry_l_max': 8, 'automaton': [a[:3] for a in _T_AUTO],
                  'tie_break_deviations': 2, 'complete_tree_leaves': 729},
@@ -302,6 +302,7 @@ class _Run:
         self.kinds = set()
         self.states = set()
         self.last_signs = None
+        self.terminated = False     # decode returned with no tracked excitation left
         self._orig_move = decoder.sweep_move
         self._orig_flip = decoder.flip_edge
         decoder.sweep_move = self._move
@@ -477,13 +478,13 @@ def _automaton(case):
                     if run.flips:
                         nontrivial.add((qubits, script))
                     if exc is None:
-                        if getattr(run, 'terminated', False):
+                        if run.terminated:
                             X['runs_terminated_clean'] += 1
                         else:
                             X['runs_gave_up'] += 1
                     outcomes.add('%s|w%d|p%d|%s|%s' % (
                         cls[:4], w, len(pts), 'exc' if exc is not None else
-                        ('clean' if getattr(run, 'terminated', False) else 'gave-up'),
+                        ('clean' if run.terminated else 'gave-up'),
                         ','.join(sorted(run.kinds)) or 'ok'))
                     for j in range(len(script), len(pts)):
                         for a in range(1, pts[j]):
